@@ -357,3 +357,119 @@ Proof.
   - unfold rf_a, d, n. v3. rewrite !Q2R_mult, !Q2R_plus, !Q2R_mult. reflexivity.
   - unfold rf_b. rewrite Q2R_minus, Q2R_mult, RMicromega.Q2R_1. reflexivity.
 Qed.
+
+(* ================================================================== follow-up: returned distance = secant step from the tested point; batches of rays *)
+
+(* the returned distance IS the secant step taken from the tested point x (previous point x', previous error e) *)
+Lemma secant_hit_is_step f tol limit : forall fuel iter d0 d1 e0 e1 d,
+  (iter <> 0%nat -> e1 = f d0 /\ exists x' e, d1 = secant_next x' d0 e (f d0)) -> 0 <= d0 -> 0 <= d1 ->
+  fst (secant fuel f tol limit iter d0 d1 e0 e1) = Hit d ->
+  exists x x' e, 0 <= x /\ Rabs (f x) <= tol /\ d = secant_next x' x e (f x).
+Proof.
+  induction fuel; intros iter d0 d1 e0 e1 d Hinv H0 H1 H; cbn [secant fst] in H; [discriminate|].
+  destruct (orb (Nat.eqb iter 0) (Rltb tol (Rabs e1))) eqn:G.
+  - destruct (Reqb (f d1 - e0) 0); [cbn [fst] in H; discriminate|].
+    destruct (Nat.ltb limit (S iter)); [cbn [fst] in H; discriminate|].
+    refine (IHfuel _ _ _ _ _ _ _ H1 _ H).
+    + intros _. split; [reflexivity|]. exists d0, e0. reflexivity.
+    + unfold secant_next. apply Rabs_pos.
+  - cbn [fst] in H. inversion H; subst d. apply orb_false_iff in G. destruct G as [G1 G2].
+    apply PeanoNat.Nat.eqb_neq in G1. apply Rltb_false in G2. destruct (Hinv G1) as [He [x' [e Hd]]].
+    exists d0, x', e. split; [exact H0|]. split; [rewrite <- He; exact G2|exact Hd].
+Qed.
+Lemma secant_exit_is_step f tol limit d : fst (intersect_parametric f tol limit) = Hit d ->
+  exists x x' e, 0 <= x /\ Rabs (f x) <= tol /\ d = secant_next x' x e (f x).
+Proof. unfold intersect_parametric. apply secant_hit_is_step; [intros H; contradiction H; reflexivity|lra|lra]. Qed.
+
+(* ------------------------------------------------------------------ batches of rays *)
+Definition srow_inv (iter : nat) (r : SRow) : Prop :=
+  (iter <> 0%nat -> srow_e1 r = srow_f r (srow_d0 r)) /\ 0 <= srow_d0 r /\ 0 <= srow_d1 r.
+Lemma srow_step_inv iter r : 0 <= srow_d1 r -> srow_inv (S iter) (srow_step r).
+Proof.
+  destruct r as [[[[f d0] d1] e0] e1]. cbn. intros H. split; [intros _; reflexivity|]. split; [exact H|unfold secant_next; apply Rabs_pos].
+Qed.
+Lemma srow_step_f r : srow_f (srow_step r) = srow_f r.
+Proof. destruct r as [[[[f d0] d1] e0] e1]. reflexivity. Qed.
+Lemma Forall2_map_l {A B C} (P : B -> C -> Prop) (g : A -> B) l ds :
+  Forall2 P (map g l) ds -> Forall2 (fun x d => P (g x) d) l ds.
+Proof.
+  revert ds. induction l; intros ds H; inversion H; subst; constructor; [assumption|apply IHl; assumption].
+Qed.
+Lemma Forall2_weaken {A B} (P Q : A -> B -> Prop) l ds : (forall a b, P a b -> Q a b) -> Forall2 P l ds -> Forall2 Q l ds.
+Proof. intros H F. induction F; constructor; [apply H; assumption|assumption]. Qed.
+Definition row_ok (tol : R) (r : SRow) (d : R) : Prop := 0 <= d /\ exists x, 0 <= x /\ Rabs (srow_f r x) <= tol.
+Lemma secant_batch_count_le tol limit : forall fuel iter rows, (iter <= limit)%nat ->
+  (snd (secant_batch fuel tol limit iter rows) <= S limit)%nat.
+Proof.
+  induction fuel; intros iter rows Hi; cbn [secant_batch snd]; [lia|].
+  destruct (orb (Nat.eqb iter 0) (existsb (srow_above tol) rows)); [|cbn [snd]; lia].
+  destruct (existsb srow_nan rows); [cbn [snd]; lia|].
+  destruct (Nat.ltb limit (S iter)) eqn:E; [cbn [snd]; lia|].
+  apply IHfuel. apply PeanoNat.Nat.ltb_ge in E. lia.
+Qed.
+Lemma secant_batch_fuel_enough tol limit : forall fuel iter rows, (iter <= limit)%nat -> (limit + 2 <= fuel + iter)%nat ->
+  fst (secant_batch fuel tol limit iter rows) <> BOutOfFuel.
+Proof.
+  induction fuel; intros iter rows Hi Hf; [lia|]. cbn [secant_batch].
+  destruct (orb (Nat.eqb iter 0) (existsb (srow_above tol) rows)); [|cbn [fst]; discriminate].
+  destruct (existsb srow_nan rows); [cbn [fst]; discriminate|].
+  destruct (Nat.ltb limit (S iter)) eqn:E; [cbn [fst]; discriminate|].
+  apply PeanoNat.Nat.ltb_ge in E. apply IHfuel; lia.
+Qed.
+Lemma secant_batch_bounded fs tol limit :
+  fst (intersect_parametric_batch fs tol limit) <> BOutOfFuel /\ (snd (intersect_parametric_batch fs tol limit) <= S limit)%nat.
+Proof. unfold intersect_parametric_batch. split; [apply secant_batch_fuel_enough; lia|apply secant_batch_count_le; lia]. Qed.
+(* if the batch comes back with distances, EVERY row's distance is >= 0 and that row's tested point is on its surface *)
+Lemma secant_batch_rows tol limit : forall fuel iter rows ds, Forall (srow_inv iter) rows ->
+  fst (secant_batch fuel tol limit iter rows) = BHit ds -> Forall2 (row_ok tol) rows ds.
+Proof.
+  induction fuel; intros iter rows ds Hinv H; cbn [secant_batch fst] in H; [discriminate|].
+  destruct (orb (Nat.eqb iter 0) (existsb (srow_above tol) rows)) eqn:G.
+  - destruct (existsb srow_nan rows); [cbn [fst] in H; discriminate|].
+    destruct (Nat.ltb limit (S iter)); [cbn [fst] in H; discriminate|].
+    assert (Hinv' : Forall (srow_inv (S iter)) (map srow_step rows)).
+    { apply Forall_map. eapply Forall_impl; [|exact Hinv]. intros r [_ [_ H1]]. apply srow_step_inv. exact H1. }
+    pose proof (IHfuel _ _ _ Hinv' H) as F. apply Forall2_map_l in F.
+    eapply Forall2_weaken; [|exact F]. intros r d [Hd [x Hx]]. split; [exact Hd|]. exists x. rewrite srow_step_f in Hx. exact Hx.
+  - cbn [fst] in H. inversion H; subst ds. apply orb_false_iff in G. destruct G as [G1 G2]. apply PeanoNat.Nat.eqb_neq in G1.
+    assert (G2' : forall r, In r rows -> srow_above tol r = false).
+    { intros r Hr. destruct (srow_above tol r) eqn:E; [|reflexivity].
+      assert (existsb (srow_above tol) rows = true) by (apply existsb_exists; exists r; split; assumption). congruence. }
+    clear H G2. induction rows as [|r rows IH]; cbn [map]; constructor.
+    + inversion Hinv as [|? ? [Ha [Hb Hc]] ?]; subst. split; [exact Hc|]. exists (srow_d0 r). split; [exact Hb|].
+      rewrite <- (Ha G1). specialize (G2' r (or_introl eq_refl)). unfold srow_above in G2'. apply Rltb_false in G2'. exact G2'.
+    + apply IH; [inversion Hinv; assumption|]. intros x Hx. apply G2'. right. exact Hx.
+Qed.
+Lemma secant_batch_exit_on_surface fs tol limit ds : fst (intersect_parametric_batch fs tol limit) = BHit ds ->
+  Forall2 (fun f d => 0 <= d /\ exists x, 0 <= x /\ Rabs (f x) <= tol) fs ds.
+Proof.
+  intros H. unfold intersect_parametric_batch in H. apply secant_batch_rows in H.
+  - apply Forall2_map_l in H. eapply Forall2_weaken; [|exact H]. intros f d Hr. exact Hr.
+  - apply Forall_map. apply Forall_forall. intros f _. unfold srow_inv, srow_init. cbn. split; [intros E; contradiction E; reflexivity|lra].
+Qed.
+(* hence a batch containing a ray that misses is flagged as a whole *)
+Lemma secant_batch_miss_flagged fs tol limit f : In f fs -> (forall x, 0 <= x -> tol < Rabs (f x)) ->
+  fst (intersect_parametric_batch fs tol limit) = BFlagged.
+Proof.
+  intros Hin Hm. destruct (secant_batch_bounded fs tol limit) as [Hb _].
+  destruct (fst (intersect_parametric_batch fs tol limit)) eqn:E; [|reflexivity|contradiction].
+  pose proof (secant_batch_exit_on_surface fs tol limit ds E) as F. exfalso.
+  clear E Hb. induction F as [|g d fs' ds' Hgd F IH]; [contradiction|].
+  destruct Hin as [->|Hin]; [|apply IH; exact Hin].
+  destruct Hgd as [_ [x [Hx Hf]]]. specialize (Hm x Hx). lra.
+Qed.
+(* the unrepaired condition |max(e)| lets a row with a large negative error go *)
+Lemma guard2_unrepaired_refuted : exists tol e0 e1, guard2_unrepaired tol e0 e1 = false /\ tol < Rabs e0.
+Proof.
+  exists (1/2), (-1), 0. split.
+  - unfold guard2_unrepaired. apply Rltb_false. rewrite Rmax_right by lra. rewrite Rabs_R0. lra.
+  - rewrite Rabs_left; lra.
+Qed.
+Lemma guard2_rows tol r0 r1 : existsb (srow_above tol) [r0; r1] = guard2 tol (srow_e1 r0) (srow_e1 r1).
+Proof. cbn [existsb]. unfold srow_above, guard2. rewrite orb_false_r. reflexivity. Qed.
+Lemma Rmax_above tol x y : Rltb tol (Rmax x y) = orb (Rltb tol x) (Rltb tol y).
+Proof.
+  unfold Rmax. destruct (Rle_dec x y).
+  - destruct (Rltb tol y) eqn:E; [rewrite orb_true_r; reflexivity|]. rewrite orb_false_r. symmetry. apply Rltb_false. apply Rltb_false in E. lra.
+  - destruct (Rltb tol x) eqn:E; [reflexivity|]. cbn. symmetry. apply Rltb_false. apply Rltb_false in E. lra.
+Qed.
